@@ -1819,6 +1819,20 @@ Proof.
   eapply equiv_trans; [apply equiv_mcu|]. apply equiv_finish_create.
 Qed.
 
+Lemma equiv_do_sendoffer h c x s i stream : equiv h (fst (do_sendoffer h c x s i stream)).
+Proof.
+  unfold do_sendoffer.
+  destruct i as [n|n|k|n]; try (destruct (negb (send_allowed (s_perms s) stream)); [apply equiv_refl|apply equiv_refl]).
+  destruct (get_sess h n) as [t|] eqn:Ht; [|destruct (negb (send_allowed (s_perms s) stream)); [apply equiv_refl|apply equiv_refl]].
+  destruct (N.eqb_spec (s_backend t) (s_backend s)) as [Hbt|]; cbn [negb]; [|apply equiv_refl].
+  destruct (N.eqb n x); [apply equiv_refl|].
+  destruct (negb (send_allowed (s_perms s) stream)); [apply equiv_refl|].
+  cbv zeta. set (r := match s_kind t with KVirtual p _ => p | _ => n end).
+  destruct (get_sess h r) as [rs|] eqn:Hr; [|apply equiv_refl].
+  destruct (is_virtual (s_kind rs)) eqn:Hv; [apply equiv_refl|].
+  destruct (sub_get rs x stream); [apply equiv_send_session; reflexivity|apply equiv_start_create].
+Qed.
+
 Lemma equiv_do_media h c sid s to mk stream media :
   get_sess h sid = Some s -> equiv h (fst (do_media h c sid s to mk stream media)).
 Proof.
@@ -1831,7 +1845,7 @@ Proof.
     + match goal with |- context [if ?c then _ else _] => destruct c end; [apply equiv_refl|].
       destruct (negb (same_call h sid s _)); [apply equiv_refl|].
       destruct (sub_get s _ stream); [apply equiv_send_session; reflexivity|apply equiv_start_create].
-    + destruct (N.eqb mk 2); [|apply equiv_refl].
+    + destruct (is_cand mk); [|destruct (N.eqb mk 3); [apply equiv_do_sendoffer|apply equiv_refl]].
       match goal with |- context [if ?c then _ else _] => destruct c end.
       * destruct (negb (send_allowed (s_perms s) stream)); [apply equiv_refl|]. destruct (aget (s_pubs s) stream); apply equiv_refl.
       * destruct (sub_get s _ stream); apply equiv_refl.
